@@ -28,6 +28,7 @@ fn main() {
     std::panic::set_hook(Box::new(|_| {}));
     for line in read_cases() {
         let m = kv(&line);
+        USE_DESCENT_STACK.store(m.get("descent").map(String::as_str) == Some("1"), std::sync::atomic::Ordering::Relaxed);
         let g = build_graph(m.get("g").map(String::as_str).unwrap_or("-"));
         install(parse_programs(m.get("r").map(String::as_str).unwrap_or("-")), "-");
         let enq = parse_enq(m.get("enq").map(String::as_str).unwrap_or("-"));
